@@ -35,10 +35,8 @@ def check(src, rep):
     w = World(src)
     file = src.file(MOD)
     rep.count("modules", len(src.text))
-    from sa.decoders import normaliser_workers
-    ws = normaliser_workers(M, MOD)
-    rep.require(len(ws) == 1, f"cannot find the one list-items normaliser reached from the public normalize_* functions (found {[w.name for w in ws]})")
-    fn = ws[0]
+    fn = M.funcs.get("kamstrup.normalize_parsed_notification")  # only used to locate reports
+    rep.require(fn is not None, "anchor vanished: kamstrup.normalize_parsed_notification")
     rep.assumptions += ["Kamstrup HAN scaling as summarised in the property (DESIGN.md A.4)", "true division of a Python int by an exact power of ten is correctly rounded"]
     rep.explanation = ("Decided: every six-part OBIS literal in the module has groups 0..255 (so comparisons with decoded codes are not constant-false); CT detection calls startswith('685') on the text "
                        "value of the element whose OBIS code is the meter-type code; the two scaling tables equal the documented ones and the CT table is chosen exactly under the CT test; negative "
